@@ -20,6 +20,9 @@ along with evo.  If not, see <http://www.gnu.org/licenses/>.
 
 import json
 import logging
+import os
+import stat
+import tempfile
 import typing
 from pathlib import Path
 
@@ -84,8 +87,30 @@ def merge_dicts(first: dict, second: dict, soft: bool = False) -> dict:
 
 
 def write_to_json_file(json_path: Path, dictionary: dict) -> None:
-    with open(json_path, 'w') as json_file:
-        json_file.write(json.dumps(dictionary, indent=4, sort_keys=True))
+    """
+    Atomically (re)writes the file, so that it never exists in a truncated
+    or partially written state - not for concurrently starting evo processes
+    and not if this process dies halfway.
+    """
+    json_path = Path(json_path)
+    try:
+        mode = stat.S_IMODE(os.stat(json_path).st_mode)
+    except FileNotFoundError:
+        mode = 0o644
+    fd, tmp_path = tempfile.mkstemp(dir=json_path.parent,
+                                    prefix=json_path.name + ".",
+                                    suffix=".tmp")
+    try:
+        with os.fdopen(fd, 'w') as json_file:
+            json_file.write(json.dumps(dictionary, indent=4, sort_keys=True))
+        os.chmod(tmp_path, mode)
+        os.replace(tmp_path, json_path)
+    except BaseException:
+        try:
+            os.unlink(tmp_path)
+        except OSError:
+            pass
+        raise
 
 
 def reset(destination: Path = DEFAULT_PATH,
@@ -108,7 +133,8 @@ def initialize_if_needed() -> None:
     (or if it was deleted).
     """
     if not USER_ASSETS_PATH.exists():
-        USER_ASSETS_PATH.mkdir()
+        # Another evo process may be initializing at the same time.
+        USER_ASSETS_PATH.mkdir(exist_ok=True)
 
     if not USER_ASSETS_VERSION_PATH.exists():
         open(USER_ASSETS_VERSION_PATH, 'w').write(__version__)
